@@ -4,6 +4,7 @@ import (
 	"context"
 	"fmt"
 	"io"
+	"strings"
 	"sync"
 
 	goat "github.com/avos-io/goat"
@@ -378,11 +379,22 @@ func c05IDs(tier string, seed int64, idx int, c c05Case, res *core.Result) {
 	b := bed.New(bed.Opts{Cap: 8})
 	cc := b.Conns[0]
 	total := 0
+	faultsInjected, callsFailed := 0, 0
+	endA := b.Links[0].A
+	rf := rng(seed, idx, "c05faults")
 	for total < c.Calls {
 		n := 64
 		var wg sync.WaitGroup
 		start := make(chan struct{})
 		errs := make([]error, n)
+		if idx%2 == 1 {
+			// transport write faults in the middle of the burst: the calls they hit fail, and nothing
+			// else may be disturbed (in particular an id must never come back into use)
+			w := endA.Writes()
+			f1, f2 := w+3+rf.Intn(40), w+50+rf.Intn(40)
+			endA.FailWritesAt(f1, f2)
+			faultsInjected += 2
+		}
 		for i := 0; i < n; i++ {
 			wg.Add(1)
 			go func(i int) {
@@ -405,15 +417,20 @@ func c05IDs(tier string, seed int64, idx int, c c05Case, res *core.Result) {
 						errs[i] = fmt.Errorf("stream %s: echoed %q err %v", tag, got, err)
 						return
 					}
-					s.CloseSend()
+					if err := s.CloseSend(); err != nil {
+						errs[i] = err
+						return
+					}
 					if _, err := s.Recv(); err != io.EOF {
 						errs[i] = fmt.Errorf("stream %s: end %v", tag, err)
 					}
 					return
 				}
 				got, err := svc.Invoke(context.Background(), cc, tag, []byte("p-"+tag))
-				if err != nil || string(got) != "p-"+tag {
-					errs[i] = fmt.Errorf("unary %s: %q %v", tag, got, err)
+				if err != nil {
+					errs[i] = err
+				} else if string(got) != "p-"+tag {
+					errs[i] = fmt.Errorf("unary %s: got %q", tag, got)
 				}
 			}(i)
 		}
@@ -438,6 +455,10 @@ func c05IDs(tier string, seed int64, idx int, c c05Case, res *core.Result) {
 		}
 		for _, e := range errs {
 			if e != nil {
+				if strings.Contains(e.Error(), "injected transport write failure") {
+					callsFailed++ // hit by an injected fault: allowed to fail with that error
+					continue
+				}
 				res.Violate("call-observed-foreign-data", "%v", e)
 			}
 		}
@@ -463,7 +484,12 @@ func c05IDs(tier string, seed int64, idx int, c c05Case, res *core.Result) {
 			}
 		}
 	}
-	if len(tagID) != total && res.Verdict == core.Held && len(res.Violations) == 0 {
+	if callsFailed > faultsInjected {
+		res.Violate("more-calls-failed-than-faults", "%d calls failed for %d injected one-shot write faults", callsFailed, faultsInjected)
+	}
+	res.Stat("write_faults_injected", int64(faultsInjected))
+	res.Stat("calls_failed_by_injected_fault", int64(callsFailed))
+	if len(tagID) < total-callsFailed && res.Verdict == core.Held && len(res.Violations) == 0 {
 		res.Violate("id-count-mismatch", "%d calls but %d distinct ids on the wire", total, len(idTag))
 	}
 	res.Stat("ids_checked", int64(len(idTag)))
